@@ -371,3 +371,66 @@ Proof.
   destruct (C' _ H') as [[Q D]|[_ D]]; [|discriminate]. inversion D as [Eq].
   apply NQ. right. rewrite E, Eq. destruct Q as [Hc|U]; [apply used_conflict | apply used_label]; assumption.
 Qed.
+
+(** ** QualifyReferences on the result of the fixed QualifyObjects *)
+Lemma closed_in_specs specs bl o q : In (o, q) (QualifyObjects_closed_over bl specs) -> In o specs.
+Proof.
+  unfold QualifyObjects_closed_over. intros H. apply in_map_iff in H.
+  destruct H as [x [E Hx]]. inversion E; subst. exact Hx.
+Qed.
+
+Theorem QualifyReferences_closed_ref_spec specs bl target :
+  map_order bl (byLabel specs) -> In target specs ->
+  (qualifiedP specs target ->
+     QualifyReferences_ref (QualifyObjects_closed_over bl specs) target = RefQualified (q_schema target) (q_label target)) /\
+  (~ qualifiedP specs target ->
+     QualifyReferences_ref (QualifyObjects_closed_over bl specs) target = RefPlain (q_label target)).
+Proof.
+  intros MO Ht. destruct (QualifyObjects_closed_spec specs bl MO target Ht) as [C1 [C2 _]].
+  unfold QualifyReferences_ref. split.
+  - intros Q. replace (byRef_has (QualifyObjects_closed_over bl specs) (Some (q_schema target)) (q_label target)) with true; [reflexivity|].
+    symmetry. apply byRef_has_iff. exists target. auto.
+  - intros NQ.
+    replace (byRef_has (QualifyObjects_closed_over bl specs) (Some (q_schema target)) (q_label target)) with false.
+    + replace (byRef_has (QualifyObjects_closed_over bl specs) None (q_label target)) with true; [reflexivity|].
+      symmetry. apply byRef_has_iff. exists target. auto.
+    + symmetry. apply not_true_is_false. intros H. apply byRef_has_iff in H. destruct H as [o [Hi Hl]].
+      pose proof (closed_in_specs _ _ _ _ Hi) as Ho.
+      destruct (QualifyObjects_closed_spec specs bl MO o Ho) as [_ [_ C]].
+      destruct (C _ Hi) as [[Q E]|[_ E]]; [|discriminate]. inversion E as [Es].
+      assert (o = target) by (destruct o, target; simpl in *; subst; reflexivity). subst o. contradiction.
+Qed.
+
+Theorem QualifyReferences_closed_no_duplicate specs bl :
+  map_order bl (byLabel specs) -> NoDup specs ->
+  NoDup (map byRef_key (QualifyObjects_closed_over bl specs)).
+Proof.
+  intros MO ND.
+  assert (Inj : forall a qa b qb, In (a, qa) (QualifyObjects_closed_over bl specs) -> In (b, qb) (QualifyObjects_closed_over bl specs) ->
+            byRef_key (a, qa) = byRef_key (b, qb) -> a = b).
+  { intros a qa b qb Ha Hb E. unfold byRef_key in E; simpl in E. inversion E as [[Eq El]].
+    pose proof (closed_in_specs _ _ _ _ Ha) as Hia. pose proof (closed_in_specs _ _ _ _ Hb) as Hib.
+    destruct (Nat.eq_dec (q_schema a) (q_schema b)) as [Es|Ns].
+    - destruct a, b; simpl in *; subst; reflexivity.
+    - exfalso.
+      assert (Ca : qualifiedP specs a).
+      { left. unfold conflictb. apply existsb_exists. exists b. split; auto.
+        rewrite El, Nat.eqb_refl. simpl. apply negb_true_iff, Nat.eqb_neq. auto. }
+      assert (Cb : qualifiedP specs b).
+      { left. unfold conflictb. apply existsb_exists. exists a. split; auto.
+        rewrite El, Nat.eqb_refl. simpl. apply negb_true_iff, Nat.eqb_neq. auto. }
+      destruct (QualifyObjects_closed_spec specs bl MO a Hia) as [_ [_ C]].
+      destruct (QualifyObjects_closed_spec specs bl MO b Hib) as [_ [_ C']].
+      destruct (C _ Ha) as [[_ Ea]|[N _]]; [|contradiction].
+      destruct (C' _ Hb) as [[_ Eb]|[N _]]; [|contradiction].
+      congruence. }
+  set (f := fun o => lookupq o (quals (pass3_closure (S (length specs)) specs (pass2 bl qst0)))).
+  assert (EQ : QualifyObjects_closed_over bl specs = map (fun o => (o, f o)) specs) by reflexivity.
+  rewrite EQ in Inj |- *. clearbody f. clear EQ MO. revert Inj.
+  induction ND as [|x l Hx ND IH]; intros Inj; simpl; constructor.
+  - intros H. apply in_map_iff in H. destruct H as [[y qy] [E Hy]].
+    assert (y = x).
+    { apply (Inj y qy x (f x)); simpl; auto. }
+    subst y. apply in_map_iff in Hy. destruct Hy as [z [Ez Hz]]. inversion Ez; subst. contradiction.
+  - apply IH. intros a qa b qb Ha Hb. apply Inj; simpl; auto.
+Qed.
